@@ -17,6 +17,7 @@ VOCAB = [
     ["decay", "eta", [["1", ["gamma", "gamma"], False, PHSP]]],
     ["decay", "eta", []],
     ["decay", "J/psi", [["0.6", ["e+", "e-"], True, PHSP], ["0.4", ["D0", "anti-D0"], False, PHSP]]],
+    ["decay", "K0", [["1.0", ["eta'"], False, PHSP]]],
     ["alias", "MyD", "D0"],
     ["alias", "MyD", "anti-D0"],
     ["alias", "Myanti", "anti-D0"],
@@ -42,7 +43,8 @@ VOCAB = [
 
 
 def docs(max_len: int = 3, part=(0, 1), need=("decay",)):
-    """all statement sequences of length 1..max_len (repetition allowed) containing a statement of one of the kinds in `need`"""
+    """all statement sequences of length 1..max_len (repetition allowed) containing a statement of one of the kinds in `need`;
+    with part = (k, m) the sequences of length <= 2 are all given and those of length 3 only every m-th, starting with the k-th"""
     import copy
 
     k = 0
@@ -51,6 +53,6 @@ def docs(max_len: int = 3, part=(0, 1), need=("decay",)):
             if need and not any(VOCAB[i][0] in need for i in seq):
                 continue
             k += 1
-            if k % part[1] != part[0]:
+            if n >= 3 and k % part[1] != part[0]:
                 continue
             yield [copy.deepcopy(VOCAB[i]) for i in seq]
